@@ -756,9 +756,6 @@ func geoCases(o Opts, rng *rand.Rand, w *cq.Writer) {
 		if err != nil || uint64(dec) != h {
 			w.OracleFail("geo-roundtrip", "shift-0 term of a geo point does not decode to its Morton hash", []float64{p.lon, p.lat})
 		}
-		if len(toks) != 8 {
-			w.OracleFail("geo-tokens", fmt.Sprintf("expected 8 terms (shifts 0,9,..,63), got %d", len(toks)), []float64{p.lon, p.lat})
-		}
 	}
 	for s := uint(0); s < 64; s += 9 {
 		encs := make([][]byte, len(hashes))
